@@ -218,6 +218,29 @@ theorem inactive_owner_drops (n : Nat) (net : Net) (sp : Paths.State) (hR : R n 
     (by omega) hex
   exact ⟨x, t', by simp only [send, hle, if_true, hx]⟩
 
+/-- **delayed sends use the wiring at send time.** A `send_in` / `send_at` issued at time `issue` on a
+    gate that is not a transit gate *then*, and whose send time lies at or after the last `connect`
+    (the wiring is `net` from `sendTime` on), behaves exactly like a send on `net` at `sendTime`:
+    with all modules active it is handed once to the owner of the far end of the chain as wired at
+    the send time — also when the gate was still unconnected when the call was made. -/
+theorem delayed_send_uses_wiring_at_send_time (n : Nat) (netAt : Nat → Net) (net : Net) (sp : Paths.State)
+    (hR : R n net sp) (owner : Nat → Nat) (active : Nat → Nat → Bool) (hact : ∀ m t, active m t = true)
+    (sender g : Nat) (hg : g < n) (issue sendTime : Nat)
+    (hissue : (netAt issue g).len ≤ 1) (hstable : ∀ t', sendTime ≤ t' → netAt t' = net)
+    (hk : kind net g ≠ .transit) :
+    sendIssued netAt owner active sender (n + 1) g issue sendTime =
+      send net owner active sender (n + 1) g sendTime ∧
+    sendIssued netAt owner active sender (n + 1) g issue sendTime =
+      .handled (owner (lastGate g (walk net n g true))) (sendTime + delaySum (walk net n g true))
+        (some (lastGate g (walk net n g true))) true sender := by
+  have hl := (kind_ne_transit net g).mp hk
+  have hle : (net g).len ≤ 1 := by omega
+  have h1 : sendIssued netAt owner active sender (n + 1) g issue sendTime =
+      send net owner active sender (n + 1) g sendTime := by
+    simp only [sendIssued, send, hissue, hle, if_true]
+    exact forwardT_stable netAt net owner active sender _ _ _ _ _ hstable
+  exact ⟨h1, h1.trans (delivered_once_to_far_owner n net sp hR owner active hact sender g hg hk sendTime)⟩
+
 /-- sending on a transit gate is refused (`Connection::new` asserts) -/
 theorem send_on_transit_panics (net : Net) (owner : Nat → Nat) (active : Nat → Nat → Bool) (sender fuel g t : Nat)
     (hk : kind net g = .transit) : send net owner active sender fuel g t = .sendPanic := by
@@ -246,5 +269,13 @@ example : ∃ x ∈ (gatesOf 0 (walk demo 5 0 true)).dropLast, ∀ t', (fun m (_
     sent from the other end at 90 it passes gates 3 and 2 at 90 / 97 and arrives at module 0 at 102 -/
 example : send demo (fun g => g / 2) (fun m t => m != 1 || t < 104) 0 6 0 100 = .dropped 2 105 := by decide
 example : send demo (fun g => g / 2) (fun m t => m != 1 || t < 104) 1 6 3 90 = .handled 0 102 (some 0) true 1 := by decide
+
+/-- gate 4 is unconnected when `send_in(msg, g4, 50)` is called at t = 0; at t = 20 it is connected to
+    gate 0 (channel 3 ns): at t = 50 the message travels 4–0–1–2–3 and reaches module 1 at 50+3+5+7 —
+    it is not handed back to the sender (module 2) -/
+def demoAt (t : Nat) : Net := if t < 20 then demo else connectAll demo [(4, 0, some 3)]
+example : sendIssued demoAt (fun g => g / 2) (fun _ _ => true) 2 7 4 0 50 = .handled 1 65 (some 3) true 2 := by decide
+example : sendIssued demoAt (fun g => g / 2) (fun _ _ => true) 2 7 4 0 10 = .handled 2 10 (some 4) true 2 := by decide
+example : (demoAt 0 4).len ≤ 1 ∧ kind (demoAt 50) 4 ≠ .transit := by decide
 
 end C08
